@@ -267,7 +267,7 @@ func (s *Sentinel) Count(class string) int {
 
 // TempRoot creates a fresh scratch root (under $TMPDIR) for one rig.
 func TempRoot(tag string) string {
-	d, err := os.MkdirTemp("", "verif-"+tag+"-")
+	d, err := os.MkdirTemp(ScratchBase(), "verif-"+tag+"-")
 	if err != nil {
 		panic(err)
 	}
@@ -280,4 +280,22 @@ func RemoveAll(p string) {
 		return
 	}
 	_ = os.RemoveAll(p)
+}
+
+// ScratchBase is the directory scratch roots are created in: $VERIF_SCRATCH if
+// set, else a per-process-tree directory on /dev/shm (fsync there costs
+// microseconds instead of milliseconds), else the default temp dir.
+func ScratchBase() string {
+	if d := os.Getenv("VERIF_SCRATCH"); d != "" {
+		if os.MkdirAll(d, 0o755) == nil {
+			return d
+		}
+	}
+	if fi, err := os.Stat("/dev/shm"); err == nil && fi.IsDir() {
+		d := "/dev/shm/verif-scratch"
+		if os.MkdirAll(d, 0o755) == nil {
+			return d
+		}
+	}
+	return ""
 }
